@@ -6,7 +6,7 @@ from . import core
 from .core import cq_Z, cq_bool, cq_list
 
 THEOREMS = ["C23_scalar", "C23_checked", "C23_checked_exact", "C23_repo_now_two_part",
-            "C23_scalar_symbol", "C23_scalar_symbol_refuted", "C23_repo_head", "C23_repo_head_scalar", "C23_multi", "C23_in_range_partial", "C23_2d_checked", "C23_slice_refuted", "C23_slice_wrap_refuted", "C23_loop_refuted",
+            "C23_scalar_symbol", "C23_scalar_symbol_refuted", "C23_repo_head", "C23_repo_head_scalar", "C23_multi", "C23_nested", "C23_nested_example", "C23_in_range_partial", "C23_2d_checked", "C23_slice_refuted", "C23_slice_wrap_refuted", "C23_loop_refuted",
             "C23_three_part_refuted", "C23_example"]
 
 PREAMBLE = "From Coq Require Import ZArith List.\nImport ListNotations.\nFrom PV Require Import Model.C23_index.\nOpen Scope Z_scope.\n"
@@ -612,7 +612,7 @@ def encode(case, res):
         kind, sel = (1 if res["exc"] == "ValueError" else 2), []
     else:
         kind = 0
-        if case.get("func"):
+        if case.get("func") or case.get("nest"):
             sel = sorted(r[0] for r in res["sel"])
         elif case.get("scalar") or case.get("multi") or case.get("v") is None:
             sel = [r[0] for r in res["sel"]]
@@ -620,6 +620,9 @@ def encode(case, res):
             sel = sorted(r[0] * 100 + r[1] for r in res["sel"])
     if case.get("func"):
         return "(%s, %s, %s, %s)" % (cq_Z(case["n"]), enc_sub(case["u"]), cq_Z(kind), cq_list([cq_Z(x) for x in sel]))
+    if case.get("nest"):
+        return "(%s, %s, %s, %s, %s, %s, %s)" % (cq_Z(case["n"]), cq_Z(case["outer"][0]), cq_Z(case["outer"][1]), enc_sub(case["u"]),
+                                                 cq_bool(case.get("outer_name") == "i"), cq_Z(kind), cq_list([cq_Z(x) for x in sel]))
     if case.get("multi"):
         return "(%s, %s, %s, %s)" % (cq_Z(case["n"]), cq_list([enc_sub(u) for u in case["multi"]]), cq_Z(kind),
                                      cq_list([cq_Z(x) for x in sel]))
@@ -700,7 +703,8 @@ def run(ctx):
     # (b) correspondence, inside Coq
     idx = [i for i, r in enumerate(results) if ("sel" in r or "exc" in r) and not cases[i].get("scalar") and not cases[i].get("multi")
            and not cases[i].get("func") and not cases[i].get("nest")]
-    # function for-statements go through the model (multiset); nested for-equations are judged by the oracle only
+    # function for-statements and nested for-equations go through the model as multisets
+    nidx = [i for i, r in enumerate(results) if ("sel" in r or "exc" in r) and cases[i].get("nest") == "1d"]
     fidx = [i for i, r in enumerate(results) if ("sel" in r or "exc" in r) and cases[i].get("func")]
     # consecutive for-equations: 1-D ones go through the model, the 2-D variants are judged by the oracle only
     midx = [i for i, r in enumerate(results) if ("sel" in r or "exc" in r) and cases[i].get("multi") and cases[i].get("pos") is None]
@@ -713,8 +717,10 @@ def run(ctx):
                                [encode(cases[i], results[i]) for i in midx], "check_multi %s" % cfg_term(cfg), shard=400)
     fbad = core.coq_eval_cases(ctx, "func", PREAMBLE, "Z * sub * Z * list Z",
                                [encode(cases[i], results[i]) for i in fidx], "check_func %s" % cfg_term(cfg), shard=400)
-    mism = None if None in (bad, sbad, mbad, fbad) else ([idx[j] for j in bad] + [sidx[j] for j in sbad]
-                                                         + [midx[j] for j in mbad] + [fidx[j] for j in fbad])
+    nbad = core.coq_eval_cases(ctx, "nested", PREAMBLE, "Z * Z * Z * sub * bool * Z * list Z",
+                               [encode(cases[i], results[i]) for i in nidx], "check_nested %s" % cfg_term(cfg), shard=400)
+    mism = None if None in (bad, sbad, mbad, fbad, nbad) else ([idx[j] for j in bad] + [sidx[j] for j in sbad] + [midx[j] for j in mbad]
+                                                               + [fidx[j] for j in fbad] + [nidx[j] for j in nbad])
     ctx.oblige("correspondence:model-vs-get_indexed_symbol+ForLoop", mism == [] and not harness_bad,
                "cfg=%s; mismatching: %s" % (cfg, [(show(cases[i]), results[i]) for i in (mism or [])[:6]]))
     if mism and not [v for v in ctx.violations if not v["no_input"]]:
